@@ -14,6 +14,26 @@ CHECKS = {
          "every text of the stated finite spaces is parsed by the real parser and by an independent recogniser written from the Lua manual; the verdicts must agree in both directions, and a stride of the same texts is pushed through the real server to bind 'parser error list' to 'published type-1 diagnostic'. Exhaustive small-scope coverage is the right level for an iff-claim over all programs: both the never-flag-valid and the never-miss-invalid direction are exercised on millions of near-valid texts",
          "trusted: internal/luaref (reference lexer/parser; own grammar test list); version-dependent texts (5.3 vs 5.4 vs LuaJIT) and compile-time rules (break outside loop, goto labels, vararg context, attribute names) are don't-care; bounds as stated in the evidence file",
          "DESIGN.md §4 C03"),
+ 'C05': ("bounded-exhaustive program enumeration (all programs of three statement alphabets up to the node bound, two layouts, both ends of every identifier) on the real server against an independent reference scope binder",
+         "every program of the ranked statement alphabets over the colliding names {a,b} (shadowing, closures, loops, repeat-until, functions, a second file defining a global) is opened on a real server and textDocument/definition is asked at both ends of every name occurrence; the answer must be the declaration Lua's scoping selects (reference binder written from the manual). A coverage statement over all small programs is what a forall-programs/forall-positions claim needs; the small-scope witnesses of scoping bugs are 1-3 statements",
+         "trusted: internal/luaref binder (manual 3.5; own tests); any defining assignment is accepted for globals; ASCII programs so column arithmetic (C04) cannot leak in; bounds: <=2 nodes with 31 expression forms, <=3 nodes structure alphabet (both layouts), 4 nodes core alphabet (thorough)",
+         "DESIGN.md §4 C05"),
+ 'C06': ("bounded-exhaustive program enumeration (same program spaces as C05, every name occurrence as query) on the real server against the occurrence classes of the reference binder",
+         "textDocument/references (declaration included) is asked at every name occurrence of every enumerated program and compared, as a set of (file, range), with the class of occurrences the reference binder binds to the same declaration (locals) or with all unbound occurrences of the name in all files (globals)",
+         "trusted: internal/luaref binder; names that no file ever assigns are don't-care; order/duplicates ignored; bounds as C05",
+         "DESIGN.md §4 C06"),
+ 'C07': ("bounded-exhaustive program enumeration (same program spaces, two configuration channels) on the real server against diagnostics predicted from the reference binder (three-valued oracle)",
+         "with all checks on, the published type 2/3/4/17 diagnostics of every enumerated program are compared with must / must-not / don't-care obligations derived from the reference binding: an unbound read must be reported, a bound name never, an unread plain local must be reported unused, a read local never",
+         "trusted: internal/luaref binder; don't-care zones listed in the evidence assumptions (idiom contexts, load-order cases, exempt declaration kinds); client flags and luahelper.json (ignore lists) channels",
+         "DESIGN.md §4 C07"),
+ 'C12': ("bounded-exhaustive program enumeration plus exhaustive sweep of all identifier positions of the repository testdata, metamorphic oracle over the real server's own answers",
+         "at every variable position of every small program and of every valid testdata file the four relations between definition, references, highlight and hover stated by the property are evaluated on the real server's answers; no external expectation is involved, so every disagreement is a defect of at least one feature",
+         "trusted: only the classification 'the answered location is a local declaration' uses the reference parse; highlight asked right after didOpen (typing guard not armed)",
+         "DESIGN.md §4 C12"),
+ 'C14': ("bounded-exhaustive program enumeration (all programs of the structure alphabet up to the node bound, uniquely renamed, every statement boundary as cursor) against the reference binder's visible-name sets",
+         "for every statement boundary of every block of every enumerated program the line print(v) is inserted as an unsaved change and completion is requested behind the v; every visible local/parameter/loop variable and every workspace global with the prefix must be offered, no out-of-scope local may be",
+         "trusted: internal/luaref VisibleAt; other labels ignored; bounds: <=2 nodes + first 60000 programs of 3 nodes (quick), <=3 nodes (thorough)",
+         "DESIGN.md §4 C14"),
 }
 NOT_YET = "check not built yet in this round (planned: see DESIGN.md section 4); no claim is made"
 
